@@ -25,6 +25,8 @@ RULE = ("(1) sweep: every (input, size, algorithm) of the small partition/packin
         "(4) chain: one process executes an Eulerian circuit through all ordered pairs (|A|^2 calls from non-initial states), every "
         "result compared with its singleton reference. (5) generators: for pairs of live generators (CKK generator, inclusion-"
         "exclusion tree, all_combinations) ALL interleavings of their next() steps; each generator's yields must equal its solo run. "
+        "(7) aged process: calls with a time limit that is generous by five orders of magnitude are repeated with every clock "
+        "that prtpy's modules refer to advanced by 1e6 s (an interpreter started long ago); result must equal the fresh one and the unlimited one. "
         "(6) grid chains: for each family of algorithms that share code, a dense grid of calls in which neighbours differ in ONE "
         "argument (same items with the next bin size / bin count / objective / switch / output type / format) is executed as one long "
         "history in one process, in three visiting orders (forward, reverse, size-major); every result is compared with the result of "
@@ -429,6 +431,36 @@ def run_grid_chain(arg):
     return {"grid": res, "family": family, "order": oname, "n": len(calls)}
 
 
+# ------------------------------------------------------------------ (7) aged process: a generous time limit in an old interpreter
+
+def aged_calls():
+    """calls with a time limit that is generous by five orders of magnitude (1e5 s against milliseconds of work)"""
+    A = [3, 1, 2, 2, 0]; C = [5, 4, 4, 3, 2, 2]
+    T = 10 ** 5
+    return [{"algo": "ilp", "items": [4, 4, 3], "k": 2, "kw": {"time_limit": T}},
+            {"algo": "ilp", "items": A, "k": 3, "kw": {"time_limit": T, "objective": "MaximizeSmallestSum"}},
+            {"algo": "ilp", "items": C, "k": 3, "kw": {"time_limit": T, "copies": 2}},
+            {"algo": "cg", "items": C, "k": 3, "kw": {"time_limit": T}},
+            {"algo": "cg", "items": A, "k": 2, "kw": {"time_limit": T, "objective": "MinimizeLargestSum"}},
+            {"algo": "cbldm", "items": C, "k": 2, "kw": {"time_limit": T}},
+            {"algo": "cbldm", "items": A, "k": 2, "kw": {"time_limit": T, "partition_difference": 1}}]
+
+
+def _aged_child(call):
+    from ..clock import aged_process
+    fresh = _obs_of(dict(call, out="PartitionAndSumsTuple"))
+    with aged_process(1e6):
+        aged = _obs_of(dict(call, out="PartitionAndSumsTuple"))
+    nolimit = _obs_of(dict(call, out="PartitionAndSumsTuple", kw={k: v for k, v in call["kw"].items() if k != "time_limit"}))
+    return fresh, aged, nolimit
+
+
+def run_aged(arg):
+    i = arg
+    assert not _TOUCHED[0], "worker is not pristine"
+    return {"aged": _in_child(_aged_child, aged_calls()[i]), "index": i}
+
+
 # ------------------------------------------------------------------ (1) sweep: arguments, repeatability, result aliasing
 
 def _raw_call(case, items, valueof):
@@ -639,6 +671,21 @@ def explore(tier, seed, pmap):
                           {"part": "grid", "tier": tier, "family": f, "order": res["order"], "pos": b["pos"], "pair": hist})
     acc.sample({"part": "grid", "families": stats["grid"], "orders": ["forward", "reverse", "size-major"]})
     yield acc.result()
+    # ---- aged process
+    acc = Acc(ID, "aged-process")
+    AC = aged_calls()
+    for res in pmap("run_aged", list(range(len(AC)))):
+        if "harness_error" in res:
+            yield res; return
+        c = dict(AC[res["index"]], out="PartitionAndSumsTuple")
+        fresh, aged, nolimit = res["aged"]
+        acc.point(nontrivial=True); acc.ran(c["algo"], 3); acc.check()
+        if aged != fresh or aged != nolimit:
+            acc.violation(c["algo"], cfg_str(c), inp_str(c), "result_depends_on_age_of_the_process",
+                          {"fresh": fresh, "no time limit": nolimit}, {"clocks advanced by 1e6 s": aged}, {"part": "aged", "index": res["index"]})
+        acc.outcome(("aged", res["index"], fresh[0]))
+    acc.sample({"part": "aged-process", "calls": [_label(c) for c in AC], "clock shift": "1e6 s in every prtpy module that refers to the time module"})
+    yield acc.result()
     # ---- sweep
     q = tier == "quick"
     sw = []
@@ -683,6 +730,11 @@ def replay(case, acc):
         refh = _in_child(_execute_history, [A[last]])
         if h["steps"][-1]["obs"] != refh["steps"][0]["obs"]:
             acc.violation(A[last]["algo"], cfg_str(A[last]), inp_str(A[last]), "result_depends_on_history", refh["steps"][0]["obs"], h["steps"][-1]["obs"], case)
+    elif part == "aged":
+        c = dict(aged_calls()[case["index"]], out="PartitionAndSumsTuple")
+        fresh, aged, nolimit = _in_child(_aged_child, aged_calls()[case["index"]])
+        if aged != fresh or aged != nolimit:
+            acc.violation(c["algo"], cfg_str(c), inp_str(c), "result_depends_on_age_of_the_process", {"fresh": fresh, "no time limit": nolimit}, aged, case)
     elif part == "grid":
         calls = grid_families(case["tier"])[case["family"]]
         if case.get("pair"):
